@@ -18,7 +18,9 @@ RULE = ("seeded random meshes as for C01 with more empty inputs (zero vertices /
 
 
 def gen_cases(rng, n, tier):
-    cases = []
+    from props.C01 import NEAR_BAND
+
+    cases = [dict(NEAR_BAND)]  # the known finding's example, always exercised
     while len(cases) < n:
         if rng.random() < 0.12:
             k = rng.randint(1, 20)
@@ -198,4 +200,6 @@ def oracle(c, o):
 
 
 def classify(c, o, failure, disagrees):
-    return None
+    if c.get("kind") == "unique_bincount":
+        return None
+    return S.near_band_class(c, failure)
